@@ -795,7 +795,9 @@ class Deep(Stream):
                 elif k == 'link':
                     g.add_network_link_sliver(lsliver=sl, interfaces=[])
                 else:
-                    raise RuntimeError('components are only written under a node')
+                    # components are only written under a node: a host node that is already in the graph
+                    g.add_node(node_id='host-id', label=G.CLASS_NetworkNode, props={'Name': 'host'})
+                    g.add_component_sliver(parent_node_id='host-id', component=sl)
                 return abs_tree(getattr(g, 'build_deep_%s_sliver' % fam)(node_id=sl.node_id))
             finally:
                 imp.delete_all_graphs()
@@ -817,8 +819,6 @@ class Deep(Stream):
         devs = []
         for route in ('dict', 'json', 'graph'):
             r = o['via_' + route]
-            if route == 'graph' and case['k'] == 'component':
-                continue
             if is_err(r):
                 devs.append((None, '%s route raised %s %s' % (route, r['err'], r.get('msg', ''))))
                 continue
@@ -1060,33 +1060,49 @@ class Element(Stream):
         G = I.ABCPropertyGraph
         state = {}       # property -> ('set', token) | ('unset',)
         devs = []
+        PAIR = {'image_ref': 'image_type', 'image_type': 'image_ref'}
+        from fim.user.node import Node as _Node
+        # proposed fix C02-4: a lone half of the image pair is completed with the stored other half,
+        # and refused (TopologyException) when the node has none
+        completes = case['k'] == 'node' and hasattr(_Node, '_complete_image_pair')
+        pair_stored = False          # the topology's nodes are created without an image
         for idx, (op, r, ex) in enumerate(zip(case['ops'], o['res'], o['bare'])):
             if op[0] == 'set':
                 p = op[1]
+                lone = p in PAIR
+                if lone and completes and not pair_stored:
+                    if not is_err(r):
+                        devs.append((None, 'op %d lone %s accepted although the node has no %s' % (idx, p, PAIR[p])))
+                    continue             # refused loudly: documented precondition, nothing stored
                 if is_err(r):
                     if ex != 'raises':
                         devs.append((None, 'op %d set %s raised %s' % (idx, p, r['err'])))
                     continue
-                state[p] = ('set', ex, 'single')
+                state[p] = ('set', ex, 'multi' if (lone and completes) else 'single')
                 if p != 'stitch_node':
                     state.pop('stitch_node', None)
-                if p == 'image_ref':
-                    state.pop('image_type', None)
-                if p == 'image_type':
-                    state.pop('image_ref', None)
+                if lone and not completes:
+                    state.pop(PAIR[p], None)
             elif op[0] == 'setmany':
+                qs = [q for q, _ in op[1]]
+                halves = [q for q in qs if q in PAIR]
+                if len(halves) == 1 and completes and not pair_stored:
+                    if not is_err(r):
+                        devs.append((None, 'op %d lone %s accepted although the node has no %s' % (idx, halves[0], PAIR[halves[0]])))
+                    continue             # the whole call is refused, nothing stored
                 if is_err(r):
                     devs.append((None, 'op %d set_properties raised %s' % (idx, r['err'])))
                     continue
-                qs = [q for q, _ in op[1]]
                 for q, v in op[1]:
-                    alone = (q == 'image_ref' and 'image_type' not in qs) or (q == 'image_type' and 'image_ref' not in qs)
+                    alone = q in PAIR and PAIR[q] not in qs and not completes
                     try:
                         bare = I.CLS[case['k']]()
                         bare.set_property(q, build_value(v))
                         state[q] = ('set', tok(bare.get_property(q)), 'single' if alone else 'multi')
                     except Exception:
                         state.pop(q, None)
+                if len(halves) == 2:
+                    pair_stored = True
                 if 'stitch_node' not in qs:
                     state.pop('stitch_node', None)
             elif op[0] == 'unset':
@@ -1098,8 +1114,9 @@ class Element(Stream):
                     devs.append((None, 'op %d unset %s raised %s' % (idx, p, r['err'])))
                     continue
                 state[p] = ('unset',)
-                if p == 'image_ref':
-                    state['image_type'] = ('unset',)
+                if p in PAIR and g is not None:
+                    state[PAIR[p]] = ('unset',)      # the pair is one graph property
+                    pair_stored = False
             else:
                 p = op[1]
                 if is_err(r):
@@ -1116,7 +1133,8 @@ class Element(Stream):
                             tag = 'image-pair'      # set without its partner: a no-op, the old value (or None) is read
                         devs.append((tag, 'op %d get %s after set: %s, expected %s' % (idx, p, json.dumps(got)[:70], json.dumps(st[1])[:70])))
                 elif st[0] == 'unset':
-                    if got is not None:
+                    if got is not None and not (p == 'stitch_node' and got == ['FBool', False]
+                                                and p in G.SLIVER_PROPERTY_TO_GRAPH):   # a flag reads its default
                         tag = None
                         if p in ('image_type', 'stitch_node') and p not in G.SLIVER_PROPERTY_TO_GRAPH:
                             tag = 'unset-unmapped'
@@ -1176,10 +1194,15 @@ def w_image():
     I = Impl.get()
     t, el = make_topology()
     n = el['node']
-    n.set_property('image_ref', 'img')
-    a = n.get_property('image_ref')
-    n.set_property('image_type', 'qcow2')
-    b = n.get_property('image_type')
+    out = {}
+    try:
+        n.set_property('image_ref', 'img')
+        a = n.get_property('image_ref')
+        n.set_property('image_type', 'qcow2')
+        b = n.get_property('image_type')
+    except Exception as e:      # proposed fix C02-4: a lone half is refused loudly instead of dropped
+        reset_store()
+        return False, {'lone image_ref': 'refused with ' + type(e).__name__}
     n.set_properties(image_ref='img', image_type='qcow2')
     n.set_property('image_type', None)
     c = n.get_property('image_type')
